@@ -80,6 +80,10 @@ func main() {
 			fmt.Fprintln(os.Stderr, err)
 			os.Exit(2)
 		}
+		// known findings (regions): so that `func` shows the |outside-region siblings like `check` does
+		if ff, err := loadFindings(); err == nil {
+			e.Findings = ff
+		}
 		bad := 0
 		for _, key := range fs.Args() {
 			var obls []*Obligation
@@ -202,6 +206,10 @@ func main() {
 		os.Exit(cmdCheck(os.Args[2:]))
 	case "replay":
 		os.Exit(cmdReplay(os.Args[2:]))
+	case "ssa":
+		os.Exit(cmdSSA(os.Args[2:]))
+	case "capscan":
+		os.Exit(cmdCapScan(os.Args[2:]))
 	default:
 		fmt.Fprintln(os.Stderr, "unknown command", os.Args[1])
 		os.Exit(2)
